@@ -960,8 +960,8 @@ func main() {
 		r.Finish("-", "wallet binary could not be built")
 	}
 	r.Assume = []string{
-		"signature validity is observed on the real output by script.VerifyTxScript (real interpreter); in Lean it is the theorem signatures_verify under the NAMED hypotheses sign_verify_ecdsa / sign_verify_schnorr (C03's statement), digests are functions of the transaction skeleton and spent outputs only (C02's statement, built into Spec.Crypto), der_len / schnorr_len, hash_same / hash_len, no_cross (no HASH160 collision between a key hash and another key's P2SH redeem hash / 20 zero bytes), haddr (bech32 encoding of the spent program succeeds), hss (native witness inputs arrive with empty scriptSig)",
-		"Spec/WalletTx.lean (verification specialised to P2PKH / P2WPKH / P2SH-P2WPKH / P2TR key path) is a reading of BIP16/141/143/341, not executed against the interpreter",
+		"signature validity is observed on the real output by script.VerifyTxScript (real interpreter); in Lean it is the theorem signatures_verify against the REAL script rules ScriptSpec.verifyScript (the reference semantics C01's script_equiv ties VerifyTxScript to), for every flag set with Core's flag dependencies and every oracle instance whose ecdsaVerify / schnorrVerify are C03's models; the sign=>verify facts are imported from C03 (own_signature_accepted, sign_canonical, schnorr_sign_verifies, generator_order), not assumed",
+		"remaining hypotheses of signatures_verify: hcalls (the signing calls succeed with R != 0 - inherited from C03), dig_* (the verifier's digest of the signed transaction = the wallet's digest of the unsigned skeleton: C02's statement, still a named hypothesis - OPEN digests_read_skeleton_only), no_clash (signature bytes||01 are not the 20-byte key hash: FindAndDelete), nonzero (no key hash / x-only key is all-zero = false as a stack element), hash_same / hash_len, no_cross, haddr, hss",
 		"wallet keys are taken from the real wallet's own listing (-l -atype pks); key derivation is C14's subject",
 		"amounts and sums < 2^64 (beyond: StringToSatoshis / spendBtc wrap silently — DESIGN O4, observation only)",
 		".others raw-key files, litecoin mode, uncompressed keys, -prompt, scrypt and BIP39 password entry are not exercised",
